@@ -231,6 +231,27 @@ def dask_level(chk, r, tmp):
         if observe(packed) != ("geo", "pt"):
             chk.violation("active/lost-after-pack_partitions-compute", dict(rep, got=observe(packed)))
         chk.count("dask-level", 3)
+        # build_sindex on the collection (frame and series): the active column stays the active column, in the collection's
+        # description and in every partition, and box queries still answer from it
+        for what in ("frame", "series"):
+            src = dd.from_pandas(df, npartitions=3).set_geometry("pt")
+            built = src.build_sindex() if what == "frame" else src["pt"].build_sindex()
+            box = (0, 0, 6, 6)
+            want = sorted(df.index[df["pt"].array.intersects_bounds(box)])
+            if what == "frame":
+                meta_active = getattr(built._meta, "_geometry", None) if hasattr(built, "_meta") else None
+                per = list(built.map_partitions(lambda d: pd.Series([getattr(d, "_geometry", None)]), meta=pd.Series([], dtype=object)).compute())
+                if type(built).__name__ != "DaskGeoDataFrame" or meta_active != "pt" or any(p != "pt" for p in per):
+                    chk.violation("active/lost-after-dask-build_sindex/frame", dict(rep, type=type(built).__name__, meta_active=meta_active, partitions=per))
+                elif built.geometry.name != "pt" or observe(built.compute()) != ("geo", "pt"):
+                    chk.violation("active/lost-after-dask-build_sindex/frame", dict(rep, geometry=built.geometry.name, computed=observe(built.compute())))
+            else:
+                if type(built).__name__ != "DaskGeoSeries":
+                    chk.violation("active/lost-after-dask-build_sindex/series", dict(rep, type=type(built).__name__, name=str(built.name)))
+            got = sorted(built.cx[box[0]:box[2], box[1]:box[3]].compute().index)
+            if got != want:
+                chk.violation(f"active/dask-build_sindex-then-cx-differs/{what}", dict(rep, got=got, expected=want))
+            chk.count("dask-build_sindex:" + what)
         # history: a frame whose partitions are held objects (persist / from_delayed), a derived frame with another active
         # column is computed, then the original is used again
         for how in ("persist", "from_delayed", "same-compute"):
